@@ -7,6 +7,7 @@ import (
 	"fmt"
 
 	proto "github.com/golang/protobuf/proto"
+	"google.golang.org/protobuf/types/known/structpb"
 	"google.golang.org/protobuf/types/known/wrapperspb"
 
 	"verifsim/engine"
@@ -15,7 +16,7 @@ import (
 // MsgSpec describes one message of a plan. Content is attributable:
 // byte j = engine.Content(Seed, 0, j).
 type MsgSpec struct {
-	Kind      string `json:"kind"` // bytes | string | legacy
+	Kind      string `json:"kind"` // bytes | string | legacy | list (a real protobuf message with NESTED messages)
 	Len       int    `json:"len"`
 	Seed      uint64 `json:"seed"`
 	Versioned bool   `json:"versioned,omitempty"`
@@ -72,6 +73,120 @@ type verLegacy struct {
 
 func (v *verLegacy) GetVersion() string { return v.ver }
 
+type verList struct {
+	*structpb.ListValue
+	ver string
+}
+
+func (v *verList) GetVersion() string { return v.ver }
+
+// legacySized is a legacy message that ALSO has a method named Size with a
+// meaning of its own (here: its length in bits) — a name, not a protobuf
+// interface: Size(msg) of the framer is defined by the encoding, not by it.
+type legacySized struct {
+	legacyMsg
+}
+
+func (l *legacySized) Size() int { return 8*len(l.Body) + 3 }
+
+// sized reports whether the (legacy, unversioned) message is built as a
+// legacySized; derived from the spec's seed so that old plans stay valid.
+func (m MsgSpec) sized() bool {
+	return m.Kind == "legacy" && !m.Versioned && engine.H(m.Seed, 52)%4 == 0
+}
+
+// SizeMode says when the harness asks Size(msg) relative to Marshal: "before"
+// (then the sizes a real protobuf message caches are fresh), "after" (Marshal
+// meets a message that was never sized), or "stale" (Size is asked, THEN nested
+// fields are changed, then Marshal: cached sizes of nested messages are out of
+// date — legitimate use: a message is sized for a buffer, completed, written).
+func (m MsgSpec) SizeMode() string {
+	switch engine.H(m.Seed, 51) % 4 {
+	case 2:
+		return "after"
+	case 3:
+		return "stale"
+	}
+	return "before"
+}
+
+// buildList builds a ListValue with nested messages from the payload: plain
+// strings, a Struct holding a string, a nested list.
+func (m MsgSpec) buildList() *structpb.ListValue {
+	p := m.payload()
+	k := 1 + int(engine.H(m.Seed, 61)%4)
+	l := &structpb.ListValue{}
+	str := func(s string) *structpb.Value {
+		return &structpb.Value{Kind: &structpb.Value_StringValue{StringValue: s}}
+	}
+	for i := 0; i < k; i++ {
+		chunk := string(p[len(p)*i/k : len(p)*(i+1)/k])
+		switch i % 3 {
+		case 0:
+			l.Values = append(l.Values, str(chunk))
+		case 1:
+			// (one entry only: the wire order of a map's entries is not fixed, and
+			// two encodings of one message must be the same bytes)
+			l.Values = append(l.Values, &structpb.Value{Kind: &structpb.Value_StructValue{StructValue: &structpb.Struct{Fields: map[string]*structpb.Value{
+				"k": str(chunk),
+			}}}})
+		default:
+			l.Values = append(l.Values, &structpb.Value{Kind: &structpb.Value_ListValue{ListValue: &structpb.ListValue{Values: []*structpb.Value{
+				str(chunk), {Kind: &structpb.Value_BoolValue{BoolValue: true}}, {Kind: &structpb.Value_NumberValue{NumberValue: float64(len(chunk))}},
+			}}}})
+		}
+	}
+	if u := m.unknownBytes(); u != nil {
+		l.ProtoReflect().SetUnknown(u)
+	}
+	return l
+}
+
+// stringValues lists every Value of the tree that holds a string.
+func stringValues(l *structpb.ListValue, out []*structpb.Value) []*structpb.Value {
+	for _, v := range l.Values {
+		switch k := v.Kind.(type) {
+		case *structpb.Value_StringValue:
+			out = append(out, v)
+		case *structpb.Value_StructValue:
+			if f := k.StructValue.Fields["k"]; f != nil {
+				if _, ok := f.Kind.(*structpb.Value_StringValue); ok {
+					out = append(out, f)
+				}
+			}
+		case *structpb.Value_ListValue:
+			out = stringValues(k.ListValue, out)
+		}
+	}
+	return out
+}
+
+// Unfinished puts the nested strings of a built "list" message into an earlier,
+// LONGER state and returns the function that completes the message again; for
+// other kinds it returns nil (nothing nested to complete).
+func (m MsgSpec) Unfinished(msg proto.Message) (finish func()) {
+	var l *structpb.ListValue
+	switch x := msg.(type) {
+	case *structpb.ListValue:
+		l = x
+	case *verList:
+		l = x.ListValue
+	default:
+		return nil
+	}
+	vals := stringValues(l, nil)
+	final := make([]string, len(vals))
+	for i, v := range vals {
+		final[i] = v.Kind.(*structpb.Value_StringValue).StringValue
+		v.Kind = &structpb.Value_StringValue{StringValue: final[i] + "-not-yet-final-"}
+	}
+	return func() {
+		for i, v := range vals {
+			v.Kind = &structpb.Value_StringValue{StringValue: final[i]}
+		}
+	}
+}
+
 // unknownBytes is a valid encoding of two fields no wrapper type has: field 15
 // (varint) and field 16 (length-delimited).
 func (m MsgSpec) unknownBytes() []byte {
@@ -105,12 +220,21 @@ func (m MsgSpec) payload() []byte {
 	case "hdr":
 		copy(p, craftHeader("1.0.0", 32, uint64(m.Seed%7)))
 	}
-	if m.Kind == "string" {
+	if m.Kind == "string" || m.Kind == "list" {
 		for i := range p {
 			p[i] = 'a' + p[i]%26
 		}
 	}
 	return p
+}
+
+// bodyBound is an upper bound of the encoded body length, for laying out
+// sections before anything is encoded.
+func (m MsgSpec) bodyBound() int {
+	if m.Kind == "list" {
+		return m.Len + 160
+	}
+	return m.Len + 16
 }
 
 // Build returns the message to marshal.
@@ -140,6 +264,15 @@ func (m MsgSpec) Build() proto.Message {
 		if m.Versioned {
 			return &verLegacy{l, m.Version()}
 		}
+		if m.sized() {
+			return &legacySized{legacyMsg{Body: p}}
+		}
+		return l
+	case "list":
+		l := m.buildList()
+		if m.Versioned {
+			return &verList{l, m.Version()}
+		}
 		return l
 	}
 	panic(engine.HarnessError{Msg: "unknown message kind " + m.Kind})
@@ -154,6 +287,8 @@ func (m MsgSpec) Empty() proto.Message {
 		return &wrapperspb.StringValue{}
 	case "legacy":
 		return &legacyMsg{}
+	case "list":
+		return &structpb.ListValue{}
 	}
 	panic(engine.HarnessError{Msg: "unknown message kind " + m.Kind})
 }
@@ -168,6 +303,8 @@ func (m MsgSpec) SameContent(got proto.Message) bool {
 		return g.Value == string(p) && bytes.Equal(g.ProtoReflect().GetUnknown(), m.unknownBytes())
 	case *legacyMsg:
 		return bytes.Equal(g.Body, p)
+	case *structpb.ListValue:
+		return m.Kind == "list" && proto.Equal(g, m.buildList())
 	}
 	return false
 }
@@ -208,17 +345,55 @@ func verOK(got string, want []string) bool {
 // is the payload plus 4 bytes here, a legacy message is the payload itself.
 var bigLens = []int{1<<20 - 40, 1<<20 - 4, 1<<20 - 3, 1 << 20, 1<<20 + 1, 1<<20 + 1000, 1<<20 + 70000, 2<<20 + 5}
 
-// genBigMsg draws a message whose body is around or above 1 MiB.
+// genBigMsg draws a message whose body is around or above 1 MiB, or — half of
+// the time — whose ENCODED BODY is an exact multiple (+-1) of a size a reader
+// or writer might move data in: k MiB for k = 2..4, or m * 2^j for j = 15..19
+// (32 KiB .. 512 KiB pieces).
 func genBigMsg(r *engine.PRNG) MsgSpec {
 	m := genMsg(r, 100)
 	m.Len = bigLens[r.Intn(len(bigLens))]
+	if r.Chance(1, 2) {
+		var body int
+		if r.Chance(1, 2) {
+			body = r.PickInt(2, 2, 3, 4) << 20
+		} else {
+			body = (1 + r.Intn(7)) << uint(15+r.Intn(5))
+		}
+		body += r.PickInt(-1, 0, 0, 0, 1)
+		m.Len = payloadForBody(m, body)
+	}
 	return m
+}
+
+func varintLen(v int) int {
+	n := 1
+	for v >= 0x80 {
+		v >>= 7
+		n++
+	}
+	return n
+}
+
+// payloadForBody returns the payload length for which the message's encoded
+// body is exactly body bytes long (a legacy message's body is its payload; a
+// wrapper adds a tag, a length and possibly the unknown fields).
+func payloadForBody(m MsgSpec, body int) int {
+	if m.Kind == "legacy" {
+		return body
+	}
+	extra := len(m.unknownBytes())
+	for l := body - extra - 2; l >= 1 && l >= body-extra-8; l-- {
+		if 1+varintLen(l)+l+extra == body {
+			return l
+		}
+	}
+	return body
 }
 
 // genMsg draws one message spec.
 func genMsg(r *engine.PRNG, maxLen int) MsgSpec {
 	m := MsgSpec{Seed: r.Uint64()}
-	m.Kind = r.PickStr("bytes", "bytes", "string", "legacy", "legacy")
+	m.Kind = r.PickStr("bytes", "bytes", "string", "legacy", "legacy", "list")
 	lens := []int{0, 0, 1, 2, 31, 32, 33, 127, 128, 129, 200, 255, 256, 257, 511, 512, 513, 1023, 1024, 1025, 4095, 4096, 4097, 65535, 65536, 65537}
 	m.Len = lens[r.Intn(len(lens))]
 	if r.Chance(1, 4) {
